@@ -20,7 +20,9 @@ CLAIMED = {
         "running every declaration over 1-2 states and every one-initial declaration over 3 states (exhaustive "
         "sub-spaces, see evidence) plus seeded random 1-6 state declarations (40% of them also as a base class "
         "plus a subclass adding transitions and from_.any() declarations) through the real metaclass and "
-        "comparing accepted / warned / InvalidDefinition with the model, verdicts computed inside coqc.",
+        "comparing accepted / warned / InvalidDefinition with the model, verdicts computed inside coqc; States.from_enum "
+        "sources (IntEnum with a falsy final member) and stray states reachable only from unreachable ones are "
+        "generated.",
         "Coq proof (BFS = reachability, checks = WellFormed) + exhaustive/random differential correspondence",
         "DESIGN.md 5 C09",
         "Compared observable is accepted-silently / accepted-with-UserWarning / InvalidDefinition (message wording "
@@ -35,7 +37,13 @@ ENG_TIE = ("Tied to /repo by the shared engine-family correspondence: seeded ran
            "values, rtc on/off, allow_event_without_transition, sync and async engines) are rendered to Python "
            "source, driven through the public API over generated histories, and the recorded observables are "
            "compared inside coqc (vm_compute) with the Gallina model of engines/*.py, callbacks.py, dispatcher.py "
-           "projected on what this property names; order inside one callback group is left open. ")
+           "projected on what this property names; order inside one callback group is left open. Also generated: "
+           "from_.any() groups, operations performed from inside a callback of an unrelated machine, decoy "
+           "instances, deep copies mid-history, exceptions deriving from BaseException / StopIteration / "
+           "TransitionNotAllowed, return values that are exception objects or equal to everything, callbacks "
+           "handing back awaitables that are no coroutine objects, class-object and proxy listeners, callback "
+           "names that are state ids, a model recording every write of its state field, and fixed probe "
+           "families (DESIGN.md 4). ")
 
 CLAIMED.update({
     "C01": (
@@ -85,7 +93,7 @@ CLAIMED.update({
         "base scenario every callback invocation position of the fault-free run is made to raise in turn, followed "
         "by 1-3 further sends. Compared: escaping exception, stored state, callbacks run by the following sends.",
         "Coq proof (phase lemmas, idle invariant) + fault-enumeration differential correspondence",
-        "DESIGN.md 5 C04", "Lifetime of sibling coroutine tasks inside asyncio.gather after a failure is not modelled (partial)."),
+        "DESIGN.md 5 C04", "Lifetime of sibling coroutine tasks inside asyncio.gather after a failure is not modelled (partial).  One genuine defect repaired (fix: 5e5ce7f: a BaseException-class failure kept the queued events)."),
     "C11": (
         "Theorems (Properties/C11.v): the __initial__ pseudo-transition carries only the start state's enter "
         "group; activating it stores the start state and runs exactly that group; its result never becomes a "
@@ -131,8 +139,10 @@ CLAIMED["C07"] = (
     "Coq proof (binder = declarative assignment; BoundArguments round trip; adapter contract; reserved-name layering) + exhaustive/random differential correspondence",
     "DESIGN.md 5 C07",
     "CPython's call binding (py_call) and inspect.BoundArguments.args/.kwargs are modelled, validated by the "
-    "correspondence against real calls.  One genuine defect repaired (fix: e0ead44, keyword-only parameter lost "
-    "after surplus positionals); known findings D15 and D7 listed in known_findings.json.")
+    "correspondence against real calls; functools.wraps-decorated callbacks, lambdas and odd user keyword "
+    "names (key, builtin-like) are generated.  Two genuine defects repaired (fix: e0ead44, keyword-only "
+    "parameter lost after surplus positionals; fix: 804b1f2, user keyword named key); known findings D15 and D7 "
+    "listed in known_findings.json.")
 
 CLAIMED["C08"] = (
     "Theorems (Properties/C08.v): a transition's guard list is satisfied iff every entry, evaluated in order, "
@@ -155,7 +165,7 @@ CLAIMED["C08"] = (
     "DESIGN.md 5 C08",
     "Partial: CPython's parser / precedence on the rewritten text is validated by the three-way "
     "correspondence, not proved.  Several guard entries per transition and both engines are "
-    "generated.  Three genuine defects repaired (fix: 6fb3a72, fix: 198c81d, fix: c06e898 executor key ignored "
+    "generated; on the async engine bare-name guards may hand back __await__ objects / resolved Futures.  Three genuine defects repaired (fix: 6fb3a72, fix: 198c81d, fix: c06e898 executor key ignored "
     "grouping).")
 
 CLAIMED["C10"] = (
@@ -173,7 +183,9 @@ CLAIMED["C10"] = (
     "compared in coqc with the model.",
     "Coq proof (storage bijection, exactly-one-active, setter validation, start selection) + differential correspondence",
     "DESIGN.md 5 C10",
-    "Django-style persistent models are not generated (a property-backed field stands for them); enum members are.  Two genuine defects repaired "
+    "Django-style persistent models are not generated (a property-backed field stands for them); enum members are; "
+    "callbacks of external and internal transitions (both engines) that write the field, and states sharing a display "
+    "name, are.  Two genuine defects repaired "
     "(fix: 12d44f1 falsy model replaced, fix: 7e8e568 falsy start_value ignored).")
 
 CLAIMED["C13"] = (
@@ -186,7 +198,8 @@ CLAIMED["C13"] = (
     "styles (results, exceptions, state, allowed_events, callbacks compared), and an attribute probe passes "
     "every name in dir(sm) that is not a declared event (~150 per machine) plus odd strings to send() on fresh "
     "instances, requiring unknown-event behaviour and no side effect; a family of machines is created by a "
-    "MachineMixin model through the registry and driven through the triggers bound onto the model.",
+    "MachineMixin model through the registry and driven through the triggers bound onto the model; triggers of a "
+    "second instance are passed to send() of the first (they must be looked up by name on the receiver).",
     "Coq proof (allowed_events exact and duplicate-free, unknown event frame) + differential correspondence + attribute probe",
     "DESIGN.md 5 C13",
     "events (all declared events) is compared through the styles only.  One genuine defect repaired (fix: e53a549).")
@@ -201,7 +214,8 @@ CLAIMED["C18"] = (
     "for a class none.  Tied to /repo by building random machine classes (finals, multi-event / self / internal "
     "transitions, cond / unless guards, four declaration styles), taking the real pydot graph of the class and "
     "of an instance in 1..all of its states, and comparing nodes (id, peripheries, highlight, internal lines) and "
-    "edges (source, target, events, guards with ! for unless) as multisets with the model in coqc.",
+    "edges (source, target, events, guards with ! for unless) as multisets with the model in coqc; states sharing "
+    "a display name, revisited states and direct writes to the model between two renderings are generated.",
     "Coq proof (node/edge characterisation) + differential correspondence on the pydot object",
     "DESIGN.md 5 C18",
     "Label wording, colours other than the highlight, "
@@ -241,7 +255,8 @@ CLAIMED["C12"] = (
     "later with add_listener at random points of the history, repeatedly and several at a time; per-provider "
     "callback logs with their arguments and the firing of guarded transitions are compared.  Isolation pairs: two "
     "instances of one class with different listener objects are driven alternately and A's trace must equal A "
-    "driven alone.  Probe: a coroutine listener added to a sync machine (known finding D11).",
+    "driven alone.  Probes: a coroutine listener added to a sync machine (known finding D11); a listener attached to "
+    "only one of a machine and its shallow / deep copy.",
     "Coq proof (provider parity, guard over all providers, attach-idempotence) + differential correspondence + isolation pairs",
     "DESIGN.md 5 C12", "Multi-name boolean expressions whose names live on different resolution rounds (D19) are not generated.")
 
@@ -257,7 +272,8 @@ CLAIMED["C17"] = (
     "and clone are driven alternately with different suffixes: the original's trace is compared with the model of "
     "prefix+suffixA (the clone's activity must not show), the clone's with prefix+clone+suffixB; directly "
     "asserted: clone.model and listeners are new objects, rtc / allow_event_without_transition / state_field / "
-    "start_value / custom attributes survive, same engine kind.",
+    "start_value / custom attributes survive, same engine kind; copies are also driven through the triggers bound "
+    "onto their model, and shallow copies (copy.copy) take part in the attach-to-one-only probes.",
     "Coq proof (clone = same configuration and registry, suffix equivalence) + differential correspondence with alternating suffixes",
     "DESIGN.md 5 C17",
     "Partial: physical non-sharing of Python objects is checked (identity tests, diverging suffixes), not "
@@ -275,7 +291,9 @@ CLAIMED["C16"] = (
     "run again with unrelated activity between every two of its operations (another instance of the class with "
     "other listeners incl. coroutine ones; another class with the same class and method names; a subclass adding "
     "callbacks; an unrelated class; an unrelated class whose state ids are A's callback names; A driven from "
-    "inside a running callback of an unrelated machine); A's observations must be identical and equal the model of A alone.  Probe: "
+    "inside a running callback of an unrelated machine); A's observations must be identical and equal the model of A alone.  Probes: "
+    "a listener attached to only one of a machine and its copy.copy / deepcopy; a MachineMixin parent model class "
+    "used before a derived model class naming another machine; "
     "a subclass declaring a transition from an inherited state changes the base class (known finding D13); the "
     "cache collision D7 is exhibited by C07's pairs.",
     "Coq proof (signature cache transparent under key separation; one-machine models) + metamorphic/differential correspondence",
@@ -300,7 +318,10 @@ CLAIMED["C06"] = (
     "returned senders; the real begin/end markers must not overlap.  asyncio: 2-4 sender tasks whose callbacks "
     "(and a nested send) await gates opened one at a time in schedule order; exactly-once, sender order, no "
     "overlap, empty queue and global FIFO (begin order = put order observed on the engine object, nested send "
-    "included) are checked on what happened.",
+    "included) are checked on what happened; further asyncio scenarios cancel the draining task inside a callback "
+    "or have one of the concurrently sent events refused (waiting events are dropped, the engine ends idle, a "
+    "later send is processed), and a thread scenario keeps a second, unrelated machine busy inside a callback "
+    "meanwhile (its lock must not matter).",
     "Coq proof (protocol invariants by induction over schedules, all senders / plans / schedules) + schedule-controlled differential correspondence (sys.settrace scheduler)",
     "DESIGN.md 5 C06",
     "Partial: the theorem is about the protocol at source-line granularity; preemption inside one source line "
@@ -319,7 +340,8 @@ CLAIMED["C15"] = (
     "{State attributes, States({...}), States.from_enum} x {direct, inherited from a base class}, plus a "
     "from_.any() rendering (also with cond / unless guards), mixed attachment (event= on some transitions, class "
     "attribute for the same event on others) and decorator renderings (@tl.before/.on/.after/.validators/.cond/"
-    ".unless def f, and @(t1 | t2) def event(self) declaring an event with its on action): the real classes must have the same states, event set and ordered per-state "
+    ".unless def f, the same on explicit Event objects, and @(t1 | t2) def event(self) declaring an event with its on action; "
+    "IntEnum sources with aliases): the real classes must have the same states, event set and ordered per-state "
     "transitions (target, internal, events, guards, validators, callbacks) and give the same observations on the "
     "common history; the baseline is compared with the engine model in coqc.",
     "Coq proof (creation-order semantics of the declaration styles) + pairwise differential correspondence of renderings",
